@@ -163,6 +163,11 @@ var c09Reads = []string{
 	"$.arr[$.i] { x = 1 }",
 	"{ print $.arr[$.i] is null, $.s[7], $.s[$.i] is string, $.n.k, $.nosuch.a.b }",
 	"{ for (v, j in $.arr) { x = v } for (kk in $.obj) { y = $.obj[kk] } m = match ($.arr) { [a, b, c] => a, z => 0 } }",
+	// reads THROUGH members that exist and are null
+	"{ x = $.nul.name; y = $.nul[0]; z = $.wrap.inner.a.b; w = $.wrap.list[0].k; v = $.wrap.list[0][2] }",
+	"{ if ($.nul.name) x = 1; print $.nul.a, $.wrap.inner[1] is null; for (q in $.wrap.list) { y = q.k } }",
+	"$.nul.name || $.wrap.inner[0] { x = 1 }",
+	"{ x = $.nul[$.i]; y = $.wrap.list[$.i].z }",
 }
 
 // VHC09ReadPurity: evaluating expressions without assignment or mutating calls never
@@ -173,6 +178,7 @@ func VHC09ReadPurity() {
 	v1 := float64(vh.Choose("v1", 2))
 	doc := c09Doc(v1)
 	doc["i"] = idx
+	doc["nul"], doc["wrap"] = nil, map[string]any{"inner": nil, "list": []any{nil, nil, nil}}
 	back, _, k := c09Run(p, doc)
 	vh.Reach("read evaluated")
 	if int(idx) < -3 {
@@ -180,6 +186,7 @@ func VHC09ReadPurity() {
 	}
 	want := c09Doc(v1)
 	want["i"] = idx
+	want["nul"], want["wrap"] = nil, map[string]any{"inner": nil, "list": []any{nil, nil, nil}}
 	vh.Assert(k == OK, "C09: reading never fails for indices at or after the start: "+p)
 	vh.Assert(jsonEqual(back, want), "C09: reading never changes the input document: "+p)
 }
